@@ -71,8 +71,11 @@ def sync_dir(src, dst):
     """make dst equal to src; files with unchanged content keep their timestamps"""
     os.makedirs(dst, exist_ok=True)
     want = set(os.listdir(src))
+    # files no generator produces any more are removed (a stale generated definition would be an unchecked tie);
+    # while generators are under development (marker file .keep_extra, never committed) they are left alone
+    keep_extra = os.path.exists(os.path.join(dst, ".keep_extra"))
     for name in os.listdir(dst):
-        if name not in want:
+        if name not in want and not name.startswith(".") and not keep_extra:
             os.remove(os.path.join(dst, name))
     changed = []
     for name in sorted(want):
